@@ -305,9 +305,9 @@ fn long_step(max: u16) {
 #[cfg(kani)]
 #[kani::proof]
 #[kani::stub(emulator_2a_lib::machine::RawMachine::trigger_clock_edge, counter_edge)]
-#[kani::unwind(565)]
-pub fn asm_step_long_k560() {
-    long_step(560)
+#[kani::unwind(225)]
+pub fn asm_step_long_k220() {
+    long_step(220)
 }
 
 #[cfg(kani)]
